@@ -23,7 +23,7 @@ import (
 )
 
 type c07Node struct {
-	db   database.DB
+	db   *c07DBw // every call under the liveness bound (c07live.go)
 	uuid string
 	// what this replica has SHOWN to the primary (largest durably precommitted id in a request that was sent)
 	reported uint64
@@ -54,23 +54,25 @@ func c07DBClass(err error) string {
 // c07Cluster: one primary and three replica databases, created once (NewDB is slow) and re-configured per scenario.
 type c07Cluster struct {
 	dir  string
-	prim database.DB
+	prim *c07DBw
 	reps []*c07Node
 }
 
 func c07NewCluster(r *hx.Result) (*c07Cluster, error) {
 	c := &c07Cluster{dir: hx.TempDir("c07d")}
 	var err error
-	if c.prim, err = c07NewDB(c.dir, "prim", false, true, 1); err != nil {
+	pdb, err := c07NewDB(c.dir, "prim", false, true, 1)
+	if err != nil {
 		return c, err
 	}
+	c.prim = c07WrapDB(r, pdb, "primary")
 	for i := 0; i < 3; i++ {
 		d, err := c07NewDB(c.dir, fmt.Sprintf("rep%d", i), true, true, 0)
 		if err != nil {
 			return c, err
 		}
 		d.AsReplica(true, true, 0)
-		c.reps = append(c.reps, &c07Node{db: d, uuid: fmt.Sprintf("uuid-%d", i)})
+		c.reps = append(c.reps, &c07Node{db: c07WrapDB(r, d, fmt.Sprintf("replica%d", i)), uuid: fmt.Sprintf("uuid-%d", i)})
 	}
 	// the store of replica 0 is followed by the byte-level replica model (default store limits, external allowance)
 	c07NameSeq++
@@ -118,6 +120,12 @@ func c07DBSync(r *hx.Result, rng *hx.Rng, c *c07Cluster, nRep, acks, nTx int) er
 		st, err := x.db.CurrentState()
 		if err != nil {
 			return "", err
+		}
+		// ORACLE: what a replica is about to report as durably precommitted is never behind its own committed state
+		r.OracleChecks++
+		if st.PrecommittedTxId < st.TxId {
+			r.Fail("C07:db.CurrentState:precommitted-below-committed", fmt.Sprintf("replica %s: CurrentState() reports committed tx %d and (durably) precommitted tx %d — the state it sends to the primary as ReplicaState is behind its own committed state", x.uuid, st.TxId, st.PrecommittedTxId),
+				map[string]interface{}{"ops": c07TraceTail(60), "replicas": nRep, "syncAcks": acks})
 		}
 		if stale != nil {
 			st = stale
@@ -227,7 +235,7 @@ func c07DBSync(r *hx.Result, rng *hx.Rng, c *c07Cluster, nRep, acks, nTx int) er
 		}
 		done := make(chan setRes, 1)
 		go func(n uint64) {
-			h, err := prim.Set(ctx, &schema.SetRequest{NoWait: true, KVs: []*schema.KeyValue{{Key: []byte(fmt.Sprintf("k%d", n%5)), Value: []byte(fmt.Sprintf("v%d", n))}}})
+			h, err := prim.raw.Set(ctx, &schema.SetRequest{NoWait: true, KVs: []*schema.KeyValue{{Key: []byte(fmt.Sprintf("k%d", n%5)), Value: []byte(fmt.Sprintf("v%d", n))}}})
 			mu.Lock()
 			a := ackers(n)
 			mu.Unlock()
@@ -245,6 +253,7 @@ func c07DBSync(r *hx.Result, rng *hx.Rng, c *c07Cluster, nRep, acks, nTx int) er
 			}
 			time.Sleep(50 * time.Microsecond)
 		}
+		c07T("db.Set(primary tx=%d) started on a client goroutine; precommitted", n)
 		c07Lap(fmt.Sprintf("tx %d precommitted after %v", n, time.Since(tw)))
 		// ORACLE (deterministic part): nothing has been shown for n yet, so it must not be committed
 		ps, _ := prim.CurrentState()
@@ -286,8 +295,10 @@ func c07DBSync(r *hx.Result, rng *hx.Rng, c *c07Cluster, nRep, acks, nTx int) er
 		if !finished {
 			select {
 			case res = <-done:
-			case <-time.After(20 * time.Second):
-				return fmt.Errorf("primary.Set(tx %d) did not return although every replica was served (replicas=%d acks=%d)", n, nRep, acks)
+			case <-time.After(c07Bound()):
+				c07T("db.Set(primary tx=%d) [client goroutine, started before the fetch rounds above]", n)
+				c07ReportHang(r, "db.Set", fmt.Sprintf(" (tx %d: %d fetch rounds served every replica, replicas=%d syncAcks=%d)", n, 12*nRep, nRep, acks))
+				panic(c07Hang{"db.Set"})
 			}
 		}
 		c07Lap(fmt.Sprintf("tx %d set returned after %v", n, time.Since(tw)))
@@ -351,8 +362,36 @@ func c07DBSync(r *hx.Result, rng *hx.Rng, c *c07Cluster, nRep, acks, nTx int) er
 	c07Lap("db drained+compared")
 	// K3 downstream at database level: a replica precommits an export whose Ts was altered on the way.
 	// It must never be allowed to commit it, and the primary must tell it that it diverged.
+	k3Set := make(chan error, 1)
 	go func() {
-		prim.Set(ctx, &schema.SetRequest{NoWait: true, KVs: []*schema.KeyValue{{Key: []byte("k3"), Value: []byte("v")}}})
+		_, err := prim.raw.Set(ctx, &schema.SetRequest{NoWait: true, KVs: []*schema.KeyValue{{Key: []byte("k3"), Value: []byte("v")}}})
+		k3Set <- err
+	}()
+	c07T("db.Set(primary, key k3) started on a client goroutine")
+	// whatever happens below, the client's Set has to come back in the end: every replica (the victim after discarding
+	// and replicating the genuine tx again) acknowledges the tx. A Set that stays blocked keeps the database's lock and
+	// the next scenario would hang in AsReplica.
+	defer func() {
+		if x := recover(); x != nil {
+			panic(x) // a hang was reported already (or the code under test panicked): keep unwinding
+		}
+		for k := 0; k < 6; k++ {
+			select {
+			case <-k3Set:
+				return
+			default:
+			}
+			for _, x := range reps {
+				round(x, nil, nil)
+			}
+		}
+		select {
+		case <-k3Set:
+		case <-time.After(c07Bound()):
+			c07T("db.Set(primary, key k3) [client goroutine started above]")
+			c07ReportHang(r, "db.Set", fmt.Sprintf(" (the tx after which one replica precommitted an altered copy, discarded it and replicated the genuine one; every replica was served 6 more fetch rounds; replicas=%d syncAcks=%d)", nRep, acks))
+			panic(c07Hang{"db.Set"})
+		}
 	}()
 	last := ps.TxId + 1
 	for i := 0; ; i++ {
@@ -435,15 +474,17 @@ func c07DBAsync(r *hx.Result, rng *hx.Rng, nTx int) error {
 	r.NextCase()
 	dir := hx.TempDir("c07a")
 	defer os.RemoveAll(dir)
-	prim, err := c07NewDB(dir, "prim", false, false, 0)
+	primRaw, err := c07NewDB(dir, "prim", false, false, 0)
 	if err != nil {
 		return err
 	}
+	prim := c07WrapDB(r, primRaw, "async-primary")
 	defer prim.Close()
-	rep, err := c07NewDB(dir, "rep", true, false, 0)
+	repRaw, err := c07NewDB(dir, "rep", true, false, 0)
 	if err != nil {
 		return err
 	}
+	rep := c07WrapDB(r, repRaw, "async-replica")
 	defer rep.Close()
 	ctx := context.Background()
 	for n := 1; n <= nTx; n++ {
@@ -514,17 +555,27 @@ func c07DB(r *hx.Result, rng *hx.Rng, thorough bool) error {
 		return err
 	}
 	c07Lap("db cluster created")
+cluster:
 	for nRep := 1; nRep <= 3; nRep++ {
 		for acks := 1; acks <= nRep; acks++ {
-			if err := c07DBSync(r, rng.Fork(), c, nRep, acks, nTx); err != nil {
+			err, hung := c07Run(r, fmt.Sprintf("db-sync replicas=%d syncAcks=%d", nRep, acks), func() error { return c07DBSync(r, rng.Fork(), c, nRep, acks, nTx) })
+			if err != nil {
 				return fmt.Errorf("db sync (replicas=%d acks=%d): %w", nRep, acks, err)
+			}
+			if hung {
+				// a stuck call holds locks of the shared databases: the cluster cannot be used any more
+				r.Count("db.cluster-abandoned-after-hang")
+				break cluster
 			}
 			// no Flush here: the driver process (and with it the model of replica 0's store) lives for one batch
 			c07Lap(fmt.Sprintf("db sync %d %d", nRep, acks))
 		}
 	}
-	if err := c07DBAsync(r, rng.Fork(), 3*nTx); err != nil {
-		return err
+	if !c07TooManyHangs() {
+		err, _ := c07Run(r, "db-async", func() error { return c07DBAsync(r, rng.Fork(), 3*nTx) })
+		if err != nil {
+			return err
+		}
 	}
 	return r.Flush()
 }
